@@ -156,6 +156,7 @@ type vfTurnTally struct {
 	nextPort   int
 	holdAlloc  chan struct{} // directed schedule: Allocate waits until this channel is closed (a slow TURN server)
 	inAlloc    atomic.Int32
+	allocDelay time.Duration // a TURN server that takes this long to allocate
 }
 
 type vfTurnClient struct {
@@ -178,6 +179,9 @@ func (c *vfTurnClient) Listen() error {
 func (c *vfTurnClient) Allocate() (net.PacketConn, error) {
 	if c.t.failAlloc {
 		return nil, errors.New("vfTurn: injected allocate failure")
+	}
+	if c.t.allocDelay > 0 {
+		time.Sleep(c.t.allocDelay)
 	}
 	if c.t.holdAlloc != nil {
 		c.t.inAlloc.Add(1)
